@@ -13,52 +13,109 @@ _T = "SE.Proofs.C16."
 THEOREMS = [_T + n for n in [
     "C16_lattice", "C16_inside", "C16_count", "C16_count_general", "C16_step_attr", "C16_range_total",
     "C16_range_spec", "C16_index_unique", "C16_index_upper_edge", "C16_outside", "C16_index_spec",
-    "C16_index_spec_determines", "C16_set_exact", "C16_set_value_at_pos", "C16_set_rejects"]]
+    "C16_index_spec_determines", "C16_set_exact", "C16_set_value_at_pos", "C16_set_rejects",
+    "C16_range_kernel", "C16_index_kernel", "C16_indexer_kernel", "C16_set_kernel", "C16_set_cell",
+    "C16_rule_at", "C16_count_robust"]]
 LEVEL_TEXT = ("Lean theorems over the rational model of create_range_dim / create_time_range / create_frequency_range "
-              "(lattice, inside [start, stop), count for whole quotients and in general, step attribute), of get_coord_index "
-              "(the unique bin on a sorted axis, upper edge, raise or clamp outside; the executable statement determines the "
-              "output) and of set_value_at_pos (exactly the addressed cell or slice is written) hold for all inputs; the model "
-              "is tied to the code by differential runs that are exact (dyadic grids for ranges, arbitrary floats for the "
-              "comparison-only lookup, all small shapes for writes).")
-LEVEL_NOTE = ("Unmodelled: binary64 rounding inside numpy arange (count and coordinates for non-representable steps such as "
-              "0.1, 1/3, 1/44100 are monitored on the real code: count exact, coordinates within 2^-40), pandas "
-              "get_slice_bound (modelled as #{c <= v}), numpy broadcasting rules beyond right-aligned equal-or-1. "
-              "Model tied to the code by generator-bounded correspondence only (no table or symbolic tie applies: the "
-              "code goes through numpy/pandas/xarray).")
-TECHNIQUE = "Lean 4 proof over model; exact differential correspondence; free-mode monitor for arange rounding"
-RULE = ("range requests on dyadic grids (all quotient fractions 0, 1/4, 1/2, 3/4), decimal-step monitor, lookups on "
-        "float axes of 1-6 points with queries at, between, next to and beyond coordinates, writes on every shape with "
-        "1-3 axes of 1-3 points; non-trivial = the implementation returned a value; distinct = distinct (operation, input)")
-TRUSTED = ["numpy arange / pandas get_slice_bound / xarray indexes and get_axis_num (modelled, validated by correspondence)"]
+              "(lattice, inside [start, stop), count for whole quotients and in general, step attribute; the trailing-point "
+              "rule yields exactly n points whichever way rounding went inside arange, under an executable contract on "
+              "numpy's output), of get_coord_index (the unique bin on a sorted axis, upper edge, raise or clamp outside; the "
+              "executable statement determines the output) and of set_value_at_pos (end to end: an element holds the value "
+              "iff its multi-index is the bin of every queried position, every other element unchanged) hold for all inputs. "
+              "The straight-line code of all five functions around their library calls (step selection, the arange call, "
+              "trailing-point guard and threshold, range test, clamp values, slice-bound side and offset, the indexer) is "
+              "traced symbolically from the current source on every run and proved equal to the model's kernels for all "
+              "rationals (38 obligations); the library calls themselves are tied by exact differential runs (dyadic grids "
+              "for ranges, arbitrary floats for the comparison-only lookup, all small shapes for writes).")
+LEVEL_NOTE = ("Unmodelled: binary64 rounding inside numpy arange (hypothesis of C16_count_robust, evaluated exactly on what "
+              "np.arange returned for steps such as 0.1, 1/3, 1/44100 and for steps derived from size= / samplerate=; "
+              "coordinates additionally within 2^-40 of the lattice), pandas get_slice_bound (modelled as #{c <= v}; known "
+              "finding C16-2: on a float32 axis pandas casts the query value to float32 first), numpy broadcasting rules "
+              "beyond right-aligned equal-or-1.  The symbolic ties cover arrays of up to three dimensions; "
+              "create_*_dim_from_array and set_dim_attrs are outside the model.")
+TECHNIQUE = ("Lean 4 proof over model; symbolic-trace equality obligations for the kernels of the range constructors, "
+             "get_coord_index and set_value_at_pos; exact differential correspondence; numpy-contract monitor for arange rounding")
+RULE = ("range requests on dyadic grids (all quotient fractions 0, 1/4, 1/2, 3/4; int / numpy-scalar arguments, float32 "
+        "coordinates), decimal-step monitor (step=, size=, samplerate=), lookups on float axes of 1-6 points with queries at, "
+        "between, next to and beyond coordinates (float / numpy / int query values, float32 and int64 axes), writes on every "
+        "shape with 1-3 axes of 1-3 points and a 4-D sample; non-trivial = the implementation returned a value; distinct = "
+        "distinct (operation, input)")
+TRUSTED = ["numpy arange / pandas get_slice_bound / xarray indexes and get_axis_num (modelled, validated by correspondence)",
+           "the stand-ins of harness/c16_sym.py answer like numpy / xarray where the kernels ask (np.arange raises on a zero "
+           "step, Index.min / max are the range of an increasing axis, get_axis_num raises ValueError for an unknown dimension)"]
 ASSUMPTIONS = ["binary64 arithmetic is exact on the dyadic grids used for range requests",
-               "step > 0 and start <= stop for range requests; axes increasing for lookups (the property's quantifier)"]
+               "step > 0 and start <= stop for range requests; axes increasing for lookups (the property's quantifier)",
+               "the query value of a lookup is a number of the axis' dtype (on a float32 axis pandas casts a binary64 "
+               "value to float32 first: known finding C16-2)"]
 NOT_COMPARED = ["error messages (only the error class)", "attributes other than `step`",
-                "range requests with non-representable steps: only count, lattice within tolerance, inside-ness and the step "
-                "attribute are checked on the real output (the rational model cannot exhibit arange rounding)"]
+                "range requests with non-representable steps: the result is fixed by C16_count_robust given numpy's arange "
+                "output (exact), plus lattice within tolerance, inside-ness and the step attribute (the rational model cannot "
+                "exhibit arange rounding)",
+                "whether set_value_at_pos returns the very array it was given (only its data, shape and coordinates)",
+                "lookups on an empty axis (the code returns -1, the model ValueError; outside the quantifier)"]
 
 
 # ------------------------------------------------------------------ implementations
 def _range_out(v):
     import numpy as np
     step = v.attrs.get("step")
-    return {"val": {"coords": [rat(float(c)) for c in np.asarray(v.data)], "step": rat(step)}}
+    if step is None:
+        return {"raise": "crash:no-step-attribute"}
+    return {"val": {"coords": [rat(float(c)) for c in np.asarray(v.data)], "step": rat(float(step))}}
+
+
+def _typed(x, ty):
+    """the same number as another Python / numpy type (`argty` of a case; only used where it is exact)"""
+    import numpy as np
+    if x is None or ty in (None, "float"):
+        return x
+    if ty == "int":
+        return int(x)
+    if ty == "npint":
+        return np.int64(int(x))
+    if ty == "np64":
+        return np.float64(x)
+    if ty == "np32":
+        return np.float32(x)
+    raise ValueError(ty)
+
+
+def _fits(x, ty):
+    import numpy as np
+    if x is None or ty in (None, "float", "np64"):
+        return True
+    if ty in ("int", "npint"):
+        return float(x) == int(x)
+    return float(np.float32(x)) == float(x)
 
 
 @guarded
 def _impl_range(inp):
+    import numpy as np
     from soundevent import arrays
     kind = inp["kind"]
-    start, stop = f(inp["start"]), f(inp["stop"])
-    step = f(inp.get("step"))
+    aty = inp.get("argty")
+    ty = aty if not isinstance(aty, dict) else None
+
+    def tyof(field):
+        return aty.get(field) if isinstance(aty, dict) else aty
+    start, stop = _typed(f(inp["start"]), tyof("start")), _typed(f(inp["stop"]), tyof("stop"))
+    step = _typed(f(inp.get("step")), tyof("step"))
+    kw = {"dtype": np.float32} if inp.get("dtype") == "float32" else {}
     if kind == "range":
-        v = arrays.create_range_dim("x", start, stop, step=step, size=inp.get("size"))
+        size = inp.get("size")
+        if size is not None and ty == "npint":
+            size = np.int64(size)
+        v = arrays.create_range_dim("x", start, stop, step=step, size=size, **kw)
         assert v.dims == ("x",)
     elif kind == "time":
-        v = arrays.create_time_range(start, stop, step=step, samplerate=f(inp.get("samplerate")))
+        v = arrays.create_time_range(start, stop, step=step, samplerate=_typed(f(inp.get("samplerate")), tyof("samplerate")), **kw)
         assert v.dims == ("time",)
     else:
-        v = arrays.create_frequency_range(start, stop, step)
+        v = arrays.create_frequency_range(start, stop, step, **kw)
         assert v.dims == ("frequency",)
+    if kw and np.asarray(v.data).dtype != np.float32:
+        return {"raise": "crash:dtype-not-honoured"}
     return _range_out(v)
 
 
@@ -77,28 +134,65 @@ def _holds_range(ctx, inp, out):
 
 @guarded
 def _impl_range_free(inp):
+    import numpy as np
     from soundevent import arrays
     start, step, n = f(inp["start"]), f(inp["step"]), inp["n"]
     stop = start + n * step
+    if inp["kind"] == "size":            # the step is what the code derives from the size
+        step = (stop - start) / n
+    elif inp["kind"] == "samplerate":    # `step` holds the sample rate
+        sr = step
+        step = 1.0 / sr
+        stop = start + n * step
     fn = {"range": lambda: arrays.create_range_dim("x", start, stop, step=step),
           "time": lambda: arrays.create_time_range(start, stop, step=step),
-          "frequency": lambda: arrays.create_frequency_range(start, stop, step)}[inp["kind"]]
+          "frequency": lambda: arrays.create_frequency_range(start, stop, step),
+          "size": lambda: arrays.create_range_dim("x", start, stop, size=n),
+          "samplerate": lambda: arrays.create_time_range(start, stop, samplerate=sr)}[inp["kind"]]
     v = fn()
-    import numpy as np
-    return {"val": {"coords": [float(c) for c in np.asarray(v.data)], "step": v.attrs.get("step"), "stop": stop}}
+    # the library call the trailing-point rule has to cope with, and the threshold as the code computes it
+    lib = [float(c) for c in np.arange(start=start, stop=stop, step=step, dtype=np.float64)]
+    return {"val": {"coords": [float(c) for c in np.asarray(v.data)], "step": v.attrs.get("step"), "stop": stop,
+                    "arange": lib, "thr": stop - step / 2, "req_step": step}}
+
+
+def _arange_contract(start, step, delta, thr, n, cs):
+    """`SE.Axis.arangeContract` on Fractions (the hypothesis of C16_count_robust)"""
+    if not (0 < step and 4 * delta < step and len(cs) in (n, n + 1)):
+        return False
+    if any(abs(c - (start + i * step)) > delta for i, c in enumerate(cs)):
+        return False
+    return abs(thr - (start + n * step - step / 2)) <= delta
 
 
 def _holds_range_free(ctx, inp, out):
     if is_err(out):
         return "range request raised: %s" % out["raise"]
-    start, step, n = f(inp["start"]), f(inp["step"]), inp["n"]
+    start, n = f(inp["start"]), inp["n"]
     r = out["val"]
     cs = r["coords"]
+    step = r["req_step"]                      # the requested step, or the one derived from size / sample rate
+    qs, qd = frac(inp["start"]), Fraction(step)
+    # numpy's contract (hypothesis of C16_count_robust), exactly, on what np.arange returned
+    lib = [Fraction(c) for c in r["arange"]]
+    delta, thr = qd / 5, Fraction(r["thr"])
+    ok = _arange_contract(qs, qd, delta, thr, n, lib)
+    ctx.contract("numpy-arange-within-quarter-step", ok, inp, {"arange_len": len(lib), "n": n},
+                 "np.arange returned neither n nor n+1 points, or a point / the threshold a quarter step off")
+    if ok:
+        # … under which the theorem fixes the result: the first n points numpy produced
+        if cs != r["arange"][:n]:
+            return (f"{len(cs)} coordinates; C16_count_robust fixes the result to the first {n} points of np.arange "
+                    f"(which returned {len(lib)})")
+        if n <= 48:   # the same judgement through the Lean definitions (small cases: JSON size)
+            m = ctx.model("range_robust", {"start": inp["start"], "step": rat(qd), "delta": rat(delta),
+                                           "thr": rat(thr), "n": n, "cs": rats(lib)})
+            if not m["contract"] or m["coords"] != rats(cs):
+                return "Lean's arangeContract / dropTrailingAt disagree with the real output"
     if len(cs) != n:
         return f"{len(cs)} coordinates for (stop - start)/step = {n}"
     if r["step"] != step:
         return "step attribute differs from the requested step"
-    qs, qd = frac(inp["start"]), frac(inp["step"])
     for i, c in enumerate(cs):
         if not (start <= c < r["stop"]):
             return f"coordinate {i} = {c!r} outside [start, stop)"
@@ -120,14 +214,21 @@ def _impl_index(inp):
     coords = fl(inp["coords"])
     if inp.get("int_axis"):
         arr = _mk_1d([int(c) for c in coords], dtype="int64")
+    elif inp.get("axis32"):
+        arr = _mk_1d(coords, dtype="float32")
     else:
         arr = _mk_1d(coords)
+    before = arr["x"].values.copy()
     v = f(inp["v"])
     if inp.get("int_query"):
         v = int(v)
-    r = arrays.get_coord_index(arr, "x", v, raise_error=inp["raise"])
+    v = _typed(v, inp.get("qty"))
+    kw = {} if inp.get("omit_raise") else {"raise_error": inp["raise"]}
+    r = arrays.get_coord_index(arr, "x", v, **kw)
     if isinstance(r, bool) or int(r) != r:
         return {"raise": "crash:not-an-int"}
+    if arr["x"].values.tobytes() != before.tobytes():
+        return {"raise": "crash:coordinates-changed"}
     return {"val": int(r)}
 
 
@@ -196,33 +297,68 @@ def _holds_index_dim(ctx, inp, out):
 
 @guarded
 def _impl_set(inp):
+    import copy
     import numpy as np
     import xarray as xr
     from soundevent.arrays import operations as ops
     shape = inp["shape"]
     dims = [f"d{k}" for k in range(len(shape))]
-    data = np.array(fl(inp["data"]), dtype=float).reshape(shape)
+    dt = "int64" if inp.get("int_data") else float
+    data = np.array(fl(inp["data"]), dtype=dt).reshape(shape)
     coords = {d: np.array(fl(ax), dtype=float) for d, ax in zip(dims, inp["axes"])}
     arr = xr.DataArray(data, dims=dims, coords=coords)
     val = inp["value"]
     if "scalar" in val:
-        value = f(val["scalar"])
+        value = _typed(f(val["scalar"]), inp.get("vty"))
     else:
-        value = np.array(fl(val["data"]), dtype=float).reshape(val["shape"]).tolist()
-    query = {f"d{k}": f(q) for k, q in inp["query"]}
+        value = np.array(fl(val["data"]), dtype=float).reshape(val["shape"])
+        how = inp.get("container", "list")
+        if how == "list":
+            value = value.tolist()
+        elif how == "tuple":
+            value = tuple(value.tolist()) if value.ndim else value.tolist()
+    given = copy.deepcopy(value)
+    query = {f"d{k}": _typed(f(q), inp.get("qty") if _fits(f(q), inp.get("qty")) else None) for k, q in inp["query"]}
     out = ops.set_value_at_pos(arr, value, **query)
     res = np.asarray(out.data)
     if res.shape != tuple(shape):
         return {"raise": "crash:shape-changed"}
+    for d in dims:
+        if d not in out.coords or np.asarray(out.coords[d]).tobytes() != coords[d].tobytes():
+            return {"raise": "crash:coordinates-changed"}
+    if not np.array_equal(np.asarray(given, dtype=float), np.asarray(value, dtype=float)):
+        return {"raise": "crash:value-argument-mutated"}
     return {"val": [rat(float(x)) for x in res.reshape(-1)]}
 
 
+_SET_HARNESS_KEYS = ("int_data", "vty", "qty", "container")
+
+
 def _set_to_model(inp):
-    return inp
+    return {k: v for k, v in inp.items() if k not in _SET_HARNESS_KEYS}
+
+
+def _match_float32_axis(failure, m):
+    """known finding C16-2: on a float32 axis pandas casts the query value to float32 before the search, so a
+    binary64 value that is not a float32 number and rounds *up onto* a coordinate is put into that coordinate's
+    bin (one too far); nothing else matches (axis of another dtype, representable value, any other index)"""
+    import numpy as np
+    inp = failure.inp or {}
+    if not inp.get("axis32") or is_err(failure.impl) or is_err(failure.model):
+        return False
+    v = f(inp["v"])
+    coords = fl(inp["coords"])
+    i = failure.impl["val"]
+    return (float(np.float32(v)) != v and failure.model["val"] == i - 1 and 0 < i < len(coords)
+            and float(np.float32(v)) == coords[i] and v < coords[i])
+
+
+FINDING_MATCHERS = {"float32_axis_value_rounds_onto_coordinate": _match_float32_axis}
 
 
 OPS = {
-    "range_dim": Op("range_dim", _impl_range, holds=_holds_range),
+    "range_dim": Op("range_dim", _impl_range, holds=_holds_range,
+                    to_model=lambda i: {k: v for k, v in i.items() if k not in ("argty", "dtype")}),
     "range_free": Op("range_free", _impl_range_free, holds=_holds_range_free, model_op="noop",
                      to_model=lambda inp: {}, compare=lambda inp, io, mo: None, mode="tolerance"),
     "coord_index": Op("coord_index", _impl_index, holds=_holds_index,
@@ -254,16 +390,35 @@ def _range_random_cases(rng, n):
         frac4 = rng.choice([0, 0, 0, 1, 2, 3])
         stop = s0 + cnt * st + frac4 * st / 4
         kind = rng.choice(["range", "range", "time", "frequency", "size", "samplerate"])
+        if rng.random() < 0.25:      # whole numbers, so that int / np.int64 arguments occur
+            s0, st = Fraction(rng.randint(-8, 64)), Fraction(rng.choice([1, 1, 2, 3, 5]))
+            stop = s0 + cnt * st + rng.choice([0, 0, 1, 2]) * (st > 2)
         if kind in ("range", "time", "frequency"):
-            yield {"kind": kind, "start": rat(s0), "stop": rat(stop), "step": rat(st)}
+            case = {"kind": kind, "start": rat(s0), "stop": rat(stop), "step": rat(st)}
         elif kind == "size":
             size = rng.choice([1, 2, 4, 8, 16, 3, 5, 10])
             stop = s0 + size * st
-            yield {"kind": "range", "start": rat(s0), "stop": rat(stop), "size": size}
+            case = {"kind": "range", "start": rat(s0), "stop": rat(stop), "size": size}
         else:
-            sr = rng.choice([1, 2, 4, 8, 256, 1024])
-            stop = s0 + Fraction(cnt, sr)
-            yield {"kind": "time", "start": rat(s0), "stop": rat(stop), "samplerate": rat(sr)}
+            sr = rng.choice([1, 2, 4, 8, 256, 1024, Fraction(1, 2), Fraction(1, 4), Fraction(1, 8)])
+            stop = s0 + min(cnt, 64) / Fraction(sr)
+            case = {"kind": "time", "start": rat(s0), "stop": rat(stop), "samplerate": rat(sr)}
+        # the same request with ints / numpy scalars (where that is the same number), float32 coordinates
+        ty = rng.choice(["float", "float", "int", "npint", "np64", "np32"])
+        nums = [f(case.get(k)) for k in ("start", "stop", "step", "samplerate")]
+        if ty != "float" and all(_fits(x, ty) for x in nums):
+            case["argty"] = ty
+        elif rng.random() < 0.5:     # a different type per argument
+            mixed = {}
+            for k in ("start", "stop", "step", "samplerate"):
+                t = rng.choice(["float", "int", "npint", "np64", "np32"])
+                if case.get(k) is not None and t != "float" and _fits(f(case[k]), t):
+                    mixed[k] = t
+            if mixed:
+                case["argty"] = mixed
+        if rng.random() < 0.15 and all(_fits(x, "np32") for x in nums):
+            case["dtype"] = "float32"
+        yield case
     # malformed requests: nothing given, zero step, zero size, zero sample rate, reversed range, negative step
     yield {"kind": "range", "start": "0", "stop": "1"}
     yield {"kind": "time", "start": "0", "stop": "1"}
@@ -296,6 +451,15 @@ def _range_free_cases(ctx):
         s0 = rng.choice(FREE_STARTS + [rng.uniform(-5, 50)])
         yield {"kind": rng.choice(["range", "time", "frequency"]), "start": rat(s0), "step": rat(st),
                "n": rng.randint(1, 2000)}
+    # the step derived from `size=` / `samplerate=` (a rounded quotient): same statement
+    for st in FREE_STEPS:
+        for s0 in (0.0, 0.3, 12.7):
+            for n in (1, 2, 3, 7, 10, 30, 100, rng.randint(1, 1500)):
+                yield {"kind": "size", "start": rat(s0), "step": rat(st), "n": n}
+    for sr in (44100.0, 22050.0, 48000.0, 8000.0, 16000.0, 3.0, 10.0, 1000.0, 96000.0, 0.3):
+        for s0 in (0.0, 0.5, 1.3):
+            for n in (1, 2, 5, 100, 441, rng.randint(1, 1500)):
+                yield {"kind": "samplerate", "start": rat(s0), "step": rat(sr), "n": n}
 
 
 def _axes_pool(rng, n_random):
@@ -336,10 +500,23 @@ def _queries(ax):
 
 
 def _index_cases(ctx):
+    rng = ctx.rng
     for ax in _axes_pool(ctx.rng, ctx.budget(4, 40)):
+        ax32 = all(_fits(c, "np32") for c in ax)
         for q in _queries(ax):
             for raise_ in (True, False):
                 yield {"coords": rats(ax), "v": rat(q), "raise": raise_}
+            # the same lookup with another type of query value / a float32 axis / raise_error left to its default
+            extra = {"coords": rats(ax), "v": rat(q), "raise": rng.random() < 0.5}
+            ty = rng.choice(["np64", "np32", "int", "npint"])
+            if _fits(q, ty):
+                extra["qty"] = ty
+            if ax32 and rng.random() < 0.5:
+                extra["axis32"] = True
+            if rng.random() < 0.3:
+                extra["raise"], extra["omit_raise"] = True, True
+            if len(extra) > 3:
+                yield extra
     # integer-typed axes and integer queries
     for n in range(1, 6):
         ax = [2 * i - 3 for i in range(n)]
@@ -397,8 +574,18 @@ def _set_cases(ctx):
                                     c = c + (ax[i + 1] - c) * Fraction(rng.choice([1, 2, 3]), 4)
                                 query.append([k, rat(c)])
                             rng.shuffle(query)
-                            yield {"shape": list(shape), "data": data, "axes": [rats(a) for a in axes],
-                                   "query": query, "value": _value(rng, kind, free)}
+                            case = {"shape": list(shape), "data": data, "axes": [rats(a) for a in axes],
+                                    "query": query, "value": _value(rng, kind, free)}
+                            r = rng.random()
+                            if r < 0.15:
+                                case["container"] = rng.choice(["tuple", "ndarray"]) if free else "tuple"
+                            elif r < 0.3:
+                                case["int_data"] = True
+                            elif r < 0.45:
+                                case["qty"] = rng.choice(["np64", "int", "npint", "np32"])
+                            elif r < 0.55 and kind == "scalar":
+                                case["vty"] = rng.choice(["int", "np64", "npint"])
+                            yield case
             # outside the axis range, unknown dimension
             k = rng.randrange(nd)
             yield {"shape": list(shape), "data": data, "axes": [rats(a) for a in axes],
@@ -407,6 +594,29 @@ def _set_cases(ctx):
                    "query": [[k, rat(axes[k][0] - Fraction(1, 8))]], "value": {"scalar": "9"}}
             yield {"shape": list(shape), "data": data, "axes": [rats(a) for a in axes],
                    "query": [[nd, "0"]], "value": {"scalar": "9"}}
+
+
+def _set_cases_4d(ctx):
+    rng = ctx.rng
+    for _ in range(ctx.budget(40, 400)):
+        shape = [rng.choice([1, 2, 3]) for _ in range(4)]
+        axes = []
+        for d in shape:
+            a0, stp = Fraction(rng.randint(-4, 4), 2), Fraction(rng.choice([1, 3, 5]), 4)
+            axes.append([a0 + i * stp for i in range(d)])
+        dims = sorted(rng.sample(range(4), rng.randint(0, 4)))
+        free = [shape[k] for k in range(4) if k not in dims]
+        query = []
+        for k in dims:
+            i = rng.randrange(shape[k])
+            c = axes[k][i]
+            if i + 1 < shape[k] and rng.random() < 0.4:
+                c = c + (axes[k][i + 1] - c) / 2
+            query.append([k, rat(c)])
+        rng.shuffle(query)
+        kind = rng.choice(["scalar", "exact", "ones", "bad"] if free else ["scalar", "cell_list"])
+        yield {"shape": shape, "data": rats(range(1, math.prod(shape) + 1)), "axes": [rats(a) for a in axes],
+               "query": query, "value": _value(rng, kind, free)}
 
 
 def _value(rng, kind, free):
@@ -426,7 +636,9 @@ def _value(rng, kind, free):
         if vs[j] == 1:
             vs[j] = 2
     n = math.prod(vs)
-    return {"shape": vs, "data": rats(range(100, 100 + n))}
+    data = list(range(100, 100 + n))
+    rng.shuffle(data)
+    return {"shape": vs, "data": rats(data)}
 
 
 def _stage_ranges(ctx):
@@ -451,12 +663,25 @@ def _stage_index_dim(ctx):
 
 def _stage_set(ctx):
     ctx.run_cases(OPS["set_value"], _set_cases(ctx))
+    ctx.run_cases(OPS["set_value"], _set_cases_4d(ctx))
     ctx.exhaustive["set_value"] = ("all shapes with 1-3 axes of 1-3 points, every subset of queried axes, every addressed "
                                    "index; scalar / exact / broadcast / unbroadcastable values")
 
 
+def _stage_kernels(ctx):
+    """Tie 1b: the kernels of the five functions, traced from the current source, equal the model's kernels
+    for all rationals (38 obligations; `C16_range_kernel`, `C16_index_kernel`, `C16_indexer_kernel`,
+    `C16_set_kernel` connect the kernels with the model the other theorems are about)"""
+    from .. import c16_sym
+    ctx.stage("kernel-range", c16_sym.range_ties, ctx)
+    ctx.stage("kernel-index", c16_sym.index_ties, ctx)
+    ctx.stage("kernel-set", c16_sym.set_ties, ctx)
+    ctx.discharge(["SoundeventModel.Axis", "SoundeventModel.AxisKernel", "SoundeventModel.Tactics"])
+
+
 def run(ctx):
     ctx.stage("corpus", ctx.run_corpus, OPS)
+    ctx.stage("kernel-ties", _stage_kernels, ctx)
     ctx.stage("range-exact", _stage_ranges, ctx)
     ctx.stage("range-free-monitor", lambda: ctx.run_cases(OPS["range_free"], _range_free_cases(ctx)))
     ctx.stage("coord-index", _stage_index, ctx)
